@@ -32,6 +32,7 @@ func runC12(p *Plan) {
 				}
 				for _, f := range forms {
 					OpGet(p.Out, e, vc.v, f, path, false)
+					OpGet(p.Out, e, vc.v, f, path, true) // the Get wrapper has a header of its own
 					OpCmp(p.Out, e, vc.v, f, path, op, right)
 					OpLC(p.Out, e, vc.v, f, path, tr.Bool())
 					OpLoop(p.Out, e, vc.v, f, path, want, ctl, false)
